@@ -155,6 +155,124 @@ async def check_isolation(ctx, case):
         ctx.nontrivial(["isolation", case["s"], k])
 
 
+async def check_package_tickets(ctx, case):
+    """a package resolver whose answers are all different (one numbered expression per look-up): every answer it produced must be in the
+    resolved tree exactly once - none lost, none used twice - under every completion order"""
+    s = case["s"]
+    rng = ctx.case_rng(case)
+    ctx.set_case("package-tickets", case)
+
+    def run_once(chooser):
+        world = E.World("tickets")
+        world.pkg_tickets = []
+
+        async def go():
+            E.set_world(world)
+            return await parse_expression_including_unresolved_subexpressions(s, resolve_packages=True)
+
+        return world, sched.Sched(chooser), go
+
+    for chooser in (None, sched.FifoChooser(), sched.LifoChooser(), sched.RandomChooser(rng), sched.RandomChooser(rng)):
+        world, sc, go = run_once(chooser)
+        out = await sched.run_under(sc if chooser is not None else None, go)
+        ctx.evaluation()
+        ctx.count("package_ticket_runs")
+        if out[0] != "ok":
+            ctx.violation(f"resolve-raises-{type(out[1]).__name__}", f"resolving {s!r} with a resolver that answers every look-up differently {describe(out)[:300]}")
+            return
+        issued = sorted(t for _k, t in world.pkg_tickets)
+        found = sorted(int(tok.value) for tok in out[1].scan_values(lambda v: hasattr(v, "type") and v.type == "CONDITION_KEY" and str(v).isdigit() and int(str(v)) >= 7001))
+        if len(issued) != case["occurrences"]:
+            ctx.violation("pairing-packages", f"{s!r} has {case['occurrences']} package occurrences, the resolver was asked {len(issued)} times")
+            return
+        if found != issued:
+            ctx.violation("pairing-packages", f"{s!r}: the package resolver produced the answers {issued} (one per look-up), the resolved tree contains {found}: an answer was lost or used for another occurrence (release order {[str(x) for x in sc.order][:10]})")
+            return
+    ctx.nontrivial(["tickets", s])
+
+
+def gen_ticket_case(rng):
+    keys = rng.sample(["1P", "2P", "3P", "44P"], rng.randint(1, 3))
+    atoms = []
+    for _ in range(rng.randint(2, 6)):
+        if rng.random() < 0.75:
+            k = rng.choice(keys)
+            atoms.append("[%s%s]" % (k, rng.choice(["", "", "0..1", "2..10"])))
+        else:
+            atoms.append("[%s]" % rng.choice(["1", "2", "501", "901"]))
+    toks = []
+    depth = 0
+    for i, a in enumerate(atoms):
+        if i:
+            toks.append(rng.choice(["U", "O", "X", " "]))
+        if rng.random() < 0.3 and i < len(atoms) - 1:
+            toks.append("(")
+            depth += 1
+        toks.append(a)
+        if depth and rng.random() < 0.4:
+            toks.append(")")
+            depth -= 1
+    toks += [")"] * depth
+    s = "".join(toks)
+    if rng.random() < 0.4:
+        s = rng.choice(["Muss ", "X", "Kann"]) + s
+    return {"s": s, "occurrences": sum(1 for a in atoms if "P" in a)}
+
+
+async def check_isolation_shipped(ctx, case):
+    """K concurrent evaluations through the library's own ContentEvaluationResult based evaluators (ONE set of instances for the whole
+    process); every task has its own content evaluation result in context-local evaluatable data"""
+    from ahbicht.expressions.hints_provider import HintsProvider  # noqa: F401  pylint:disable=unused-import
+
+    ctx.set_case("isolation-shipped", case)
+    k = case["k"]
+    s = case["s"]
+    hints = {h: f"Hinweis {h}" for h in ("501", "502", "503")}
+    cers = []
+    for i in range(k):
+        cers.append(
+            E.make_cer(
+                table_for(case["rc_keys"], i),
+                {key: (j + i) % 2 == 0 for j, key in enumerate(sorted(case["fc_keys"], key=int))},
+                hints,
+                fc_msg={key: f"E{key}" for key in case["fc_keys"]},
+                packages={p: v for p, v in case["table"].items() if v is not None},
+            )
+        )
+
+    async def one(cer):
+        E.set_cer(cer)
+        text_to_be_evaluated_by_format_constraint.set("text")
+        tree = await parse_expression_including_unresolved_subexpressions(s, resolve_packages=True)
+        return await evaluate_ahb_expression_tree(tree)
+
+    E.install_cer_based()
+    try:
+        alone = []
+        for cer in cers:
+            alone.append(summarise(await sched.run_under(None, lambda cer=cer: one(cer))))
+
+        async def all_tasks():
+            tasks = [asyncio.ensure_future(one(cer)) for cer in cers]
+            return await asyncio.gather(*tasks, return_exceptions=True)
+
+        out = await sched.run_under(None, all_tasks)
+    finally:
+        E.install()
+    ctx.evaluation(k)
+    ctx.count("isolation_runs_with_shipped_evaluators")
+    if out[0] != "ok":
+        ctx.violation(f"isolation-raises-{type(out[1]).__name__}", f"{k} concurrent evaluations of {s!r} with the ContentEvaluationResult based evaluators {describe(out)[:300]}")
+        return
+    for i, (res, base) in enumerate(zip(out[1], alone)):
+        got = ("exc:" + type(res).__name__) if isinstance(res, BaseException) else "ok:" + repr(res)
+        if got != base:
+            ctx.violation("context-leak", f"{k} concurrent evaluations of {s!r} with the ContentEvaluationResult based evaluators (each task with its own result in context-local data): task{i} got {got[:300]}, evaluated alone it gets {base[:300]}")
+            return
+    if len(set(alone)) >= 2:
+        ctx.count("isolation_runs_with_shipped_evaluators_and_different_outcomes")
+
+
 async def check_failure_isolation(ctx, case):
     """K concurrent evaluations whose requirement evaluators await look-ups SHARED between all of them (one pending future per key, as a
     cache in front of a backend hands out); one of the evaluations fails (a structurally invalid modal-mark part beside a valid one).
@@ -259,10 +377,15 @@ async def check_validity_product(ctx, case):
         for fc in product((True, False), repeat=len(case["fc_keys"])):
             expected.add((tuple(zip(sorted(case["rc_keys"]), rc)), tuple(zip(sorted(case["fc_keys"]), fc))))
     # what the evaluators actually saw, per evaluation (= per world): every event must carry the context of its own world, and every
-    # world must be an element of the product. NOT demanded: that every element of the product is evaluated, or that every key of an
+    # world must be an element of the product, no two evaluations get the same element. NOT demanded: that every element of the product is evaluated, or that every key of an
     # evaluation is asked for (an implementation that decides validity structurally, stops early or evaluates lazily is as good)
     rc_only = {e[0] for e in expected}
     complete = set()
+    handed_out = [w.id for w in seen]  # World.from_cer spells the whole content evaluation result out in the id
+    if len(set(handed_out)) != len(handed_out):
+        twice = next(i for i in handed_out if handed_out.count(i) > 1)
+        ctx.violation("context-leak", f"is_valid_expression({s!r}): {handed_out.count(twice)} of the {len(handed_out)} evaluations it started were handed the SAME content evaluation result ({twice}); each evaluation stands for one element of the product and must see its own")
+        return
     for w in seen:
         for ev in w.log:
             ctx.count("validity_events")
@@ -391,8 +514,11 @@ async def run(ctx):
             case = gen_case(rng)
             case["k"] = rng.randint(2, 5)
             await check_isolation(ctx, case)
+            await check_isolation_shipped(ctx, case)
         for i in range(ctx.budget(120, 6_000)):
             await check_failure_isolation(ctx, gen_failure_case(rng))
+        for i in range(ctx.budget(150, 8_000)):
+            await check_package_tickets(ctx, gen_ticket_case(rng))
         for i in range(ctx.budget(100, 5_000)):
             for _ in range(50):
                 case = gen_case(rng)
@@ -424,6 +550,10 @@ async def replay(ctx, phase, case):
             await check_orders(ctx, case)
         elif phase == "isolation":
             await check_isolation(ctx, case)
+        elif phase == "package-tickets":
+            await check_package_tickets(ctx, case)
+        elif phase == "isolation-shipped":
+            await check_isolation_shipped(ctx, case)
         elif phase == "failure-isolation":
             await check_failure_isolation(ctx, case)
         elif phase == "direct-sites":
